@@ -300,7 +300,9 @@ def check_direction(r, model, kind, label, direction, x, ctx, params, g, case, c
                 nb = float(b.norm())
                 err = float((a.double() - b).norm())
                 r.worst("f32_grad_relerr/tol", err / (0.2 * nb + 1e-3))
-                if err > 0.2 * nb + 1e-3 and nb < 1e6:
+                # (a float64 gradient that is itself ~0 - a 1-feature Householder reflection is -1 whatever its vector - leaves
+                #  only float32 cancellation noise, up to 1e-3 / |q| for tiny q, to compare: no information, not judged)
+                if err > 0.2 * nb + 1e-3 and 1e-2 < nb < 1e6:
                     r.viol("f32_gradient", "%s float32 gradient disagrees with the float64 gradient" % label, what=what,
                            rel_err=err / max(nb, 1e-30), **det)
         except Exception as e:
